@@ -1,3 +1,4 @@
+@data.setter
 def spec(self, value):
     if value.shape != self.data_.value.shape:
         raise RuntimeError(f'shape of data cannot be changed, received value of shape {tuple(value.shape)}, required value of shape {tuple(self.data_.value.shape)}')
